@@ -12,6 +12,9 @@ What is proved (names as registered in props/c17.py)
               parser.cpp and tokenizer.re on every run - they fail to check as soon as the source says something else.
   literals    `numeric_decimal`: every digit string, leading zeros included, is the integer `Nat.ofDigits 10`;
               `float_is_float`; `implicit_mul`: `<digits><identifier>` is `digits * identifier`.
+  strings     `parse_pretty` (`parse_pretty_cx` for convert_xor = true): tokenizer and grammar together - the rendered
+              byte string of any well-formed printed form, with arbitrary whitespace, parses to its tree
+              (`lexTok_text`, `lexAll_render` in Lemmas/C17Lex.lean are the tokenizer round trip).
   grammar     `parse_pretty_tokens`: for EVERY printed form `d` (`Doc`: a tree with all its parentheses and
               implicit-multiplication tokens) whose parentheses are sufficient w.r.t. the binding powers of parser.yy
               (`OK genBP d`, any number of redundant pairs allowed) the model parser returns the tree the form stands
@@ -29,6 +32,7 @@ import Mathlib.Tactic.Linarith
 import Mathlib.Tactic.Ring
 import SymVerif.Lemmas.NFSound
 import SymVerif.Lemmas.C17Pratt
+import SymVerif.Lemmas.C17Lex
 import SymVerif.Model.ParserSem
 
 namespace SymVerif
@@ -164,13 +168,6 @@ theorem constants_conventional :
 
 /-! ### 2. literals -/
 
-theorem alpha_not_dig (c : UInt8) (h : isAlpha c = true) : isDig c = false := by
-  simp only [isAlpha, Bool.or_eq_true, Bool.and_eq_true, decide_eq_true_eq, beq_iff_eq] at h
-  simp only [isDig, Bool.and_eq_false_iff, decide_eq_false_iff_not]
-  simp only [UInt8.le_iff_toNat_le, UInt8.ext_iff] at h ⊢
-  simp at h ⊢
-  omega
-
 theorem takeWhile_all (p : UInt8 → Bool) : ∀ (l : Bytes), (∀ c ∈ l, p c = true) → l.takeWhile p = l
   | [], _ => rfl
   | a :: t, h => by
@@ -251,6 +248,44 @@ theorem leftOK_zero : ∀ d : Doc, LeftOK genBP 0 d
 theorem parse_pretty_tokens' (d : Doc) (hok : OK genBP d) : parseTokens genBP (d.toks ++ [.eof]) = .ok d.ast :=
   parse_pretty_tokens d hok (leftOK_zero d)
 
+
+/-! ### 3b. from strings: tokenizer and grammar together -/
+
+/-- **`parse (pp ast) = ast`, on strings.**  Let `d` be any printed form whose parentheses are sufficient
+(`OK genBP d`) and whose leaf tokens are well-formed (`ValidTok`: identifiers `char (char|dig)*` other than the
+keyword, numerals of the `numeric` rule, implicit-multiplication tokens `numeral identifier` whose identifier does not
+start with `e`/`E`, operator characters).  Render its tokens with ANY amount of whitespace `ws i` in front of the
+i-th token and after the last one - none at all wherever the next byte cannot extend the previous token (`SepOK`).
+Then the model of `Parser::parse` (tokenizer specification + grammar) applied to that byte string returns exactly the
+tree `d` stands for. -/
+theorem parse_pretty (d : Doc) (ws : Nat → Bytes) (hws : ∀ i, AllWs (ws i))
+    (hv : ∀ t ∈ d.toks, ValidTok t) (hsep : SepOK ws 0 (d.toks ++ [.eof])) (hok : OK genBP d) :
+    parseBytes (renderInput ws d.toks) false = .ok d.ast := by
+  unfold parseBytes parseBytesWith
+  simp only [Bool.false_eq_true, if_false]
+  rw [lexAll_renderInput ws hws d.toks hv hsep]
+  exact parse_pretty_tokens' d hok
+
+theorem convertXor_id : ∀ (l : Bytes), (94 : UInt8) ∉ l → convertXor l = l
+  | [], _ => rfl
+  | c :: t, h => by
+    have hc : c ≠ 94 := fun hc => h (by simp [hc])
+    have ht : (94 : UInt8) ∉ t := fun ht => h (by simp [ht])
+    have ih := convertXor_id t ht
+    simp only [convertXor] at ih
+    simp only [convertXor, List.map_cons, ih]
+    simp [hc]
+
+/-- the same for the default `convert_xor = true`, for strings without the character `^` -/
+theorem parse_pretty_cx (d : Doc) (ws : Nat → Bytes) (hws : ∀ i, AllWs (ws i))
+    (hv : ∀ t ∈ d.toks, ValidTok t) (hsep : SepOK ws 0 (d.toks ++ [.eof])) (hok : OK genBP d)
+    (hx : (94 : UInt8) ∉ renderInput ws d.toks) :
+    parseBytes (renderInput ws d.toks) true = .ok d.ast := by
+  unfold parseBytes parseBytesWith
+  simp only [if_true, convertXor_id _ hx]
+  rw [lexAll_renderInput ws hws d.toks hv hsep]
+  exact parse_pretty_tokens' d hok
+
 section Examples
 set_option linter.unusedSimpArgs false
 /- single-letter identifiers / small numbers as byte lists -/
@@ -258,6 +293,29 @@ private def x : Doc := .ident [120]
 private def y : Doc := .ident [121]
 private def z : Doc := .ident [122]
 private def two : Doc := .num [50]
+
+theorem idText1 (c : UInt8) (h : isAlpha c = true) : IsIdText [c] := ⟨c, [], rfl, h, by simp⟩
+
+/-- the hypotheses of `parse_pretty` are satisfiable: the string `x -y-z` (one blank, otherwise tight) -/
+example :
+    let d : Doc := .bin .sub (.bin .sub x y) z
+    let ws : Nat → Bytes := fun i => if i = 1 then [32] else []
+    (∀ i, AllWs (ws i)) ∧ (∀ t ∈ d.toks, ValidTok t) ∧ SepOK ws 0 (d.toks ++ [.eof]) ∧ OK genBP d
+      ∧ renderInput ws d.toks = [120, 32, 45, 121, 45, 122] := by
+  refine ⟨?_, ?_, ?_, ?_, ?_⟩
+  · intro i; by_cases h : i = 1 <;> simp [AllWs, h, isWs]
+  · intro t ht
+    simp only [Doc.toks, x, y, z, tokOfBin, List.mem_append, List.mem_cons, List.mem_singleton, List.not_mem_nil,
+      or_false] at ht
+    rcases ht with ((rfl | rfl | rfl) | rfl | rfl)
+    · exact ⟨idText1 120 (by decide), by decide⟩
+    · exact Or.inl (by decide)
+    · exact ⟨idText1 121 (by decide), by decide⟩
+    · exact Or.inl (by decide)
+    · exact ⟨idText1 122 (by decide), by decide⟩
+  · simp [SepOK, Doc.toks, x, y, z, tokOfBin, Follow, firstByte, tokText, isIdCont, isAlpha, isDig]
+  · simp only [OK, LeftOK, NoCapture, x, y, z, tokOfBin]; decide
+  · simp [renderInput, render, Doc.toks, x, y, z, tokOfBin, tokText]
 
 /-- `x - y - z` is `(x - y) - z`, and needs no parentheses -/
 example : OK genBP (.bin .sub (.bin .sub x y) z) := (by simp only [OK, LeftOK, NoCapture, x, y, z, two, tokOfBin]; decide)
